@@ -11,6 +11,7 @@ import re
 from . import common as C
 from .wire import export_abi, export_cases
 
+GENERIC_REPLAY = True   # scenarios are a deterministic function of (tier, seed); see check --replay
 LEVEL = {"C20": "model_checking"}
 
 
